@@ -168,7 +168,7 @@ def finJson (cfg : Config) (f : Fin K V) : Ren Json := do
     pure (Json.mkObj [("r", "removal"), ("prot", prot),
       ("attrs", Json.mkObj [("name", .str a.name), ("domain", optJson a.domain), ("path", optJson a.path)])])
   | .none => pure (Json.mkObj [("r", "none")])
-  | .err e => pure (Json.mkObj [("r", "err"), ("kind", .str (finErrStr e))])
+  | .err e => pure (Json.mkObj [("r", "err"), ("kind", .str (finErrStr e)), ("set", num (respond cfg [] f).length)])
   | .panic => pure (Json.mkObj [("r", "panic")])
 
 def reqJson (cfg : Config) (o : ReqOut K V) : Ren Json := do
